@@ -10,6 +10,7 @@ from engine.model import src, stmt_key, walk_no_nested, dotted, AnalysisError
 from engine.util import own_nodes, calls_with_nodes, where
 
 RULES = {
+    "R-10.14": "names outside the zone are refused whatever the relativity setting: in dns.zone._validate_name the `not name.is_subdomain(origin)` refusal of an absolute name is not nested under a test of `relativize`",
     "R-10.13": "copy-on-write copies from the OLD node: in every `fresh.rdatasets.extend(old.rdatasets)` of a version class the source is not (an alias of) the fresh node itself - otherwise every untouched name below a new or removed delegation loses its records",
     "R-10.12": "delete_exact refuses unless EVERY given rdata is present: the DeleteNotExact('missing rdatas') raise is guarded by a subset test (`existing.intersection(rdataset) != rdataset` / `not rdataset.issubset(existing)`), not by disjointness",
     "R-10.11": "the SOA-only-at-the-origin test of Transaction._add accepts the origin in either spelling, like every other owner name: the refusal compares the name with BOTH names _origin_information() returns (the absolute origin and the effective one)",
@@ -395,6 +396,17 @@ def run(model, rep, tier):
                   "an SOA is refused only when its owner is neither the absolute nor the effective origin",
                   f"the SOA test compares the owner name only with {sorted(compared)} of ({', '.join(elts)}) = _origin_information(): the origin given in the other spelling (absolute on a relativized zone, "
                   "the default empty name of update_serial() on an absolute zone) is refused with 'non-origin SOA' although every other record accepts both spellings", stmt="soa-origin-spelling")
+    # ---------------------------------------------------------------- R-10.14
+    vn = model.func("dns.zone._validate_name")
+    subs = [n for n in ast.walk(vn.node) if isinstance(n, ast.If) and any(isinstance(b, ast.Raise) for b in n.body) and any(a[0].endswith(".is_subdomain(origin)") and a[1] == "falsy" for a in atoms(normalise_compare(n.test)))]
+    if not subs:
+        rep.blind("R-10.14", vn.qualname, where(vn, vn.node), "the `if not name.is_subdomain(origin): raise KeyError` refusal was not found", stmt="out-of-zone-refused")
+    for sb in subs[:1]:
+        encl = [n for n in ast.walk(vn.node) if isinstance(n, ast.If) and n is not sb and any(y is sb for b in n.body + n.orelse for y in ast.walk(b))]
+        cond = [n for n in encl if any(a[0] == "relativize" for a in atoms(normalise_compare(n.test)))]
+        rep.check(not cond, "R-10.14", vn.qualname, where(vn, sb), "an absolute name outside the origin is refused for relativized and absolute zones alike",
+                  "the out-of-zone refusal is nested under `if relativize`: on a zone created with relativize=False `www.example.net.` or `com.` is accepted by add/replace/get/delete, out-of-zone records are "
+                  "committed and transactions that must abort go through", stmt="out-of-zone-refused")
     # ---------------------------------------------------------------- R-10.12
     td = model.func("dns.transaction.Transaction._delete")
     miss = [n for n in ast.walk(td.node) if isinstance(n, ast.If) and any(isinstance(b, ast.Raise) and src(b).rstrip(")").rstrip("'\"").endswith("missing rdatas") for b in n.body)]
@@ -608,6 +620,9 @@ def _for_node_kinds(model, f, cfg, rd, d) -> set:
 
 
 WITNESSES = [
+    {"id": "c10-out-of-zone-check-only-when-relativizing", "rule": "R-10.14", "file": "dns/zone.py", "expect": "fires",
+     "old": "        if not name.is_subdomain(origin):\n            raise KeyError(\"name parameter must be a subdomain of the zone origin\")\n        if relativize:\n            name = name.relativize(origin)",
+     "new": "        if relativize:\n            if not name.is_subdomain(origin):\n                raise KeyError(\"name parameter must be a subdomain of the zone origin\")\n            name = name.relativize(origin)"},
     {"id": "c10-end-skips-manager-for-reader-rollback", "rule": "R-10.4", "file": "dns/transaction.py", "expect": "fires",
      "old": "        try:\n            self._end_transaction(commit)\n        finally:\n            self._ended = True", "new": "        try:\n            if commit or not self.read_only:\n                self._end_transaction(commit)\n        finally:\n            self._ended = True"},
     {"id": "c10-delete-exact-tests-disjointness", "rule": "R-10.12", "file": "dns/transaction.py", "expect": "fires",
